@@ -16,6 +16,9 @@ tie   : stream valid-grid — valid and invalid grid geometries (templates of ev
         shapes touching in 1..n points of one edge, random start vertex and direction, repeated points, random contact
         rings) against the Lean copy (Model/Valid/RingNested.lean) and, when the rings do not cross, the exact containment
         reference.
+        stream pair-rule — the real PolygonIntersectionAnalyzer::processIntersections (findInvalidIntersection) on single pairs
+        of ring segments, both flag settings, against the Lean copy (Model/Valid/PairRule.lean), which is PROVED equal to the
+        reference evaluator's intersection rule (findInvalidIntersection_eq_pairRule).
 A difference in a verdict IS a violation of C05 (GEOS != the rules).  Known defects are matched by structural signatures."""
 import os, json, glob
 import verif, gtok
@@ -127,6 +130,22 @@ def nest_wkts(case):
         return []
 
 
+def pair_wkts(case):
+    """geometries built from a pair-rule case 'Q flag same i j | ring A | ring B'"""
+    try:
+        head, a, b = case.split("|")
+        same = head.split()[2] == "1"
+        def ring(t):
+            v = t.split()
+            return "(" + ",".join("%s %s" % (v[i], v[i + 1]) for i in range(0, len(v), 2)) + ")"
+        ta, tb = ring(a), ring(b)
+        if same:
+            return ["POLYGON(%s)" % ta]
+        return ["MULTIPOLYGON((%s),(%s))" % (ta, tb), "POLYGON(%s,%s)" % (ta, tb), "POLYGON(%s,%s)" % (tb, ta)]
+    except Exception:
+        return []
+
+
 def run(ctx):
     ctx.base_trust([
         "the reference evaluator GeosModel.Valid.validRef / simpleRef (literal OGC/JTS rules on exact integer geometry, Model/Valid/Ref.lean) "
@@ -147,7 +166,7 @@ def run(ctx):
         ctx.violation("harness c05 does not compile against the current tree", {"kind": "tie-broken", "correspondence": "harness/c05.cpp", "log": out[-3000:]}, nofail=True)
         return
     quick = ctx.tier == "quick"
-    n = 10000 if quick else 400000
+    n = 12000 if quick else 400000
     found_input = False
     r = verif.run_stream(exe, STREAM, ctx.seed, n, ctx.work, shards=8, driver_exe=DRV, timeout=6000)
     fam = {}
@@ -216,7 +235,7 @@ def run(ctx):
                       nofail=not found_input)
     # ---- the model of PolygonTopologyAnalyzer::isRingNested against the real function (the one decision behind hole-in-shell,
     #      nested holes, nested shells and shell-in-hole) and, for rings that do not cross, against the exact containment reference
-    r3 = verif.run_stream(exe, "ring-nested", ctx.seed, 80000 if quick else 1500000, ctx.work, shards=8, driver_exe=DRV)
+    r3 = verif.run_stream(exe, "ring-nested", ctx.seed, 300000 if quick else 3000000, ctx.work, shards=8, driver_exe=DRV)
     corr["ring-nested"] = {"cases": r3["cases"], "disagreements": len(r3["disagreements"]) + r3.get("more_disagreements", 0), "distribution": r3["stats"]}
     if r3["error"]:
         ctx.violation("stream ring-nested could not run: " + r3["error"], {"kind": "tie-broken", "correspondence": "ring-nested", "detail": r3["error"]}, nofail=True)
@@ -243,6 +262,35 @@ def run(ctx):
             ctx.violation("PolygonTopologyAnalyzer::isRingNested differs from its Lean copy / the exact containment reference: case %s impl %s model %s" % (case, exp, got),
                           {"kind": "tie-broken", "correspondence": "ring-nested", "case": case, "impl": exp, "model": got,
                            "fields": "case = R <test ring> | <target ring> (integer x y pairs); answer 1 nested / 0 not / X exception; 'ref=' = containment reference when the rings do not cross"},
+                          nofail=not found_input)
+    # ---- the model of PolygonIntersectionAnalyzer::findInvalidIntersection (proved equal to the reference's pairRule) against the real
+    #      processIntersections on single pairs of ring segments, both flag settings
+    r4 = verif.run_stream(exe, "pair-rule", ctx.seed, 200000 if quick else 3000000, ctx.work, shards=8, driver_exe=DRV)
+    corr["pair-rule"] = {"cases": r4["cases"], "disagreements": len(r4["disagreements"]) + r4.get("more_disagreements", 0), "distribution": r4["stats"]}
+    if r4["error"]:
+        ctx.violation("stream pair-rule could not run: " + r4["error"], {"kind": "tie-broken", "correspondence": "pair-rule", "detail": r4["error"]}, nofail=True)
+    elif r4["disagreements"]:
+        failing = None
+        for idx, case, exp, got in r4["disagreements"][:40]:
+            for wkt in pair_wkts(case):
+                v, obs = evaluate(exe, "W " + wkt)
+                if v and v.startswith("bad"):
+                    failing = (case, exp, got, wkt, v, obs)
+                    break
+            if failing:
+                break
+        idx, case, exp, got = r4["disagreements"][0]
+        if failing:
+            case, exp, got, wkt, v, obs = failing
+            sig = signature(v)
+            found_input = True
+            ctx.violation("validity differs from the OGC rules on rings where the per-pair intersection decision differs from its model: %s  [%s]" % (v, json.dumps(sig, sort_keys=True)),
+                          {"kind": "failing-input", "stream": "pair-rule", "wkt_list": [wkt], "wkt": wkt, "observed": obs.split(" | ")[-1] if obs else "", "verdict": v,
+                           "segment_pair": case, "code_impl": exp, "code_model": got, "signature": sig}, signature=sig)
+        else:
+            ctx.violation("PolygonIntersectionAnalyzer::findInvalidIntersection differs from its Lean copy (proved equal to the reference's intersection rule): case %s impl %s model %s" % (case, exp, got),
+                          {"kind": "tie-broken", "correspondence": "pair-rule", "case": case, "impl": exp, "model": got,
+                           "fields": "case = Q flag same i j | ring A | ring B (integer x y pairs); answer = error code of the pair (segment i of A, segment j of B or of A when same=1), -1 none"},
                           nofail=not found_input)
     ctx.cov["support_correspondence"] = corr
     if not proved:
